@@ -17,6 +17,8 @@ claimed = {
          "bounds: one call per header, name/value lengths as stated; trailers, proxy CONNECT target and URI setters on Request outside; one known finding excluded (non-token header names)", "§0 C05"),
  "C06": ("request-cookie half: up to 2 SetCookie calls with arbitrary key (≤1/≤2 bytes) and value (≤2 bytes); the serialised Cookie value is parsed by a second RequestHeader: never more cookies than set; cookie-octet keys/values round-trip",
          "bounds as stated; response Set-Cookie attribute round trip outside; one known finding excluded (';' in a request cookie)", "§0 C06"),
+ "C07": ("server-side limits on the real ServeConn loop: with MaxRequestBodySize = L symbolic in [1,6]/[1,8] and a non-streamed POST of n ≤ 8/9 arbitrary bytes (fixed-length, one chunk, two chunks), n ≤ L is dispatched with exactly its body and the next request follows, n > L is never dispatched, gets a 4xx response and the connection closes, and the handler never holds more than L bytes; a head longer than ReadBufferSize (64) gets 431 and a close",
+         "bounds as stated; client limits, *WithLimit helpers, multipart, streamed bodies, large limits outside", "§0 C07"),
  "C08": ("all byte strings of length ≤3 (quick) / ≤5 (thorough) through Args.ParseBytes, Cookie.ParseBytes, URI.Parse, ParseByteRange, RequestHeader.Read, ResponseHeader.Read, VisitHeaderParams and request-cookie parsing: no panic / out-of-range / budget overrun on any path, plus no over-read on templated request heads with arbitrary continuations",
          "bounds as stated; bodies, trailers, multipart, limits and long inputs outside", "§0 C08"),
  "C09": ("differential: the same templated request head (5 templates × hole ≤2/≤3 arbitrary bytes × 4 blank-line spellings) followed by two arbitrary continuations (≤2 bytes each) is read by the real RequestHeader.Read twice; acceptance, fields and consumed length must agree",
@@ -53,7 +55,6 @@ claimed = {
 
 na = {
  "C04": "not built: needs HostClient.Do against a scripted fake server connection (dial stub, pooled conns, streamed responses); the client path was not brought up under the interpreter in this build",
- "C07": "not built: size-limit harnesses (symbolic limits against header/body/chunk readers) were not written in this build",
  "C15": "not built: Shutdown needs a listener, Serve's accept loop and wall-clock polling; not brought up under the interpreter in this build",
  "C16": "not built: TimeoutHandler interleavings need preemption inside the handler goroutine; the cooperative scheduler only switches at blocking points and this harness was not written",
  "C18": "not built: the inductive step over HostClient's pool operations needs a representation invariant for conns/connsWait/wantConn that was not written in this build",
